@@ -9,6 +9,7 @@
    or writes to its target file. *)
 From Coq Require Import List Ascii String ZArith Bool Arith.
 From YP Require Import Outcome PyStr Cli CliSpec CliGetDiff CliValidate CliMerge CliSetPaths.
+From YP Require Import MergeConfig MultiDoc CliLibSpec CliMergeModes.
 Import ListNotations.
 Open Scope string_scope.
 Open Scope list_scope.
@@ -192,6 +193,121 @@ Example C16_merge_example_stdin_only :
     false [] (ex_src "-" [4; 5]) =
   mkrun (Exit 0) [ODump false [45]] [].
 Proof. vm_compute. reflexivity. Qed.
+
+(* ---- the three multi-document modes ARE the library's (Model/MultiDoc.v, the model of C18) ---- *)
+
+(* merge_docs of the glue on a source that loads = MultiDoc.merge_docs on the loaded stream, for ANY
+   pairwise merge (failing steps included): same documents, same exit state, same exception family *)
+Theorem C16_merge_docs_is_library :
+  forall merge2 estr mode lhs s ds,
+    get_doc_mergers estr s = MgOk ds ->
+    same_drive (Cli.merge_docs merge2 estr mode lhs s)
+               (MultiDoc.merge_docs nat (lib_merge2 merge2) (Ok (lib_mode mode)) (Some ds) lhs).
+Proof. exact merge_docs_adapt. Qed.
+Print Assumptions C16_merge_docs_is_library.
+
+(* -M merge_across / -M matrix_merge, every source loads: when the library-level drivers, applied
+   stream by stream in command-line order (named files, then a waiting STDIN; the first non-empty
+   stream supplies the left-hand documents), end with state 0 and the documents d :: rest, the run
+   exits 0 and delivers exactly those documents - the first decides the output format *)
+Theorem C16_merge_modes_output :
+  forall merge2 flow jview estr a tty srcs stdin_src nerr vl n',
+    ma_mode a <> CondenseAll ->
+    merge_validate a (List.length srcs) (map s_name srcs) tty = (nerr, vl, n') -> nerr = 0 ->
+    Forall (src_loads estr) srcs ->
+    (stdin_waits_m a tty srcs = true -> src_loads estr stdin_src) ->
+    ma_backup a && negb (ma_overwrite_exists a) = false ->
+    forall d rest,
+      lib_merge_streams merge2 (ma_mode a) [] (merge_streams estr a tty srcs stdin_src) = Ok (d :: rest, 0) ->
+      r_status (cli_merge_main merge2 flow jview estr a tty srcs stdin_src) = Exit 0 /\
+      delivered (cli_merge_main merge2 flow jview estr a tty srcs stdin_src) =
+        [(doc_is_json flow a d,
+          prepared flow jview a (prepared flow jview a d) :: map (prepared flow jview a) rest)].
+Proof. exact merge_modes_output. Qed.
+Print Assumptions C16_merge_modes_output.
+
+(* ... and when a step of the selected mode fails, its exit state (31/32, 41/42) is the tool's exit
+   status and nothing is delivered *)
+Theorem C16_merge_modes_error :
+  forall merge2 flow jview estr a tty srcs stdin_src nerr vl n',
+    ma_mode a <> CondenseAll ->
+    merge_validate a (List.length srcs) (map s_name srcs) tty = (nerr, vl, n') -> nerr = 0 ->
+    Forall (src_loads estr) srcs ->
+    (stdin_waits_m a tty srcs = true -> src_loads estr stdin_src) ->
+    forall out n,
+      lib_merge_streams merge2 (ma_mode a) [] (merge_streams estr a tty srcs stdin_src) = Ok (out, S n) ->
+      r_status (cli_merge_main merge2 flow jview estr a tty srcs stdin_src) = Exit (S n) /\
+      delivered (cli_merge_main merge2 flow jview estr a tty srcs stdin_src) = [].
+Proof. exact merge_modes_error. Qed.
+Print Assumptions C16_merge_modes_error.
+
+(* with C18_across: no step raises -> the i-th document of every later stream is merged into the
+   i-th document so far, surplus documents are appended (MultiDoc.across_spec folded over the streams) *)
+Theorem C16_merge_across_output :
+  forall merge2 flow jview estr a tty srcs stdin_src nerr vl n',
+    merges_clean merge2 ->
+    ma_mode a = MergeAcross ->
+    merge_validate a (List.length srcs) (map s_name srcs) tty = (nerr, vl, n') -> nerr = 0 ->
+    Forall (src_loads estr) srcs ->
+    (stdin_waits_m a tty srcs = true -> src_loads estr stdin_src) ->
+    ma_backup a && negb (ma_overwrite_exists a) = false ->
+    forall d rest,
+      across_streams merge2 (merge_streams estr a tty srcs stdin_src) = d :: rest ->
+      r_status (cli_merge_main merge2 flow jview estr a tty srcs stdin_src) = Exit 0 /\
+      delivered (cli_merge_main merge2 flow jview estr a tty srcs stdin_src) =
+        [(doc_is_json flow a d,
+          prepared flow jview a (prepared flow jview a d) :: map (prepared flow jview a) rest)].
+Proof. exact merge_across_output. Qed.
+Print Assumptions C16_merge_across_output.
+
+(* with C18_matrix: no step raises -> every document of every later stream is merged, in order, into
+   every document so far *)
+Theorem C16_merge_matrix_output :
+  forall merge2 flow jview estr a tty srcs stdin_src nerr vl n',
+    merges_clean merge2 ->
+    ma_mode a = MatrixMerge ->
+    merge_validate a (List.length srcs) (map s_name srcs) tty = (nerr, vl, n') -> nerr = 0 ->
+    Forall (src_loads estr) srcs ->
+    (stdin_waits_m a tty srcs = true -> src_loads estr stdin_src) ->
+    ma_backup a && negb (ma_overwrite_exists a) = false ->
+    forall d rest,
+      matrix_streams merge2 (merge_streams estr a tty srcs stdin_src) = d :: rest ->
+      r_status (cli_merge_main merge2 flow jview estr a tty srcs stdin_src) = Exit 0 /\
+      delivered (cli_merge_main merge2 flow jview estr a tty srcs stdin_src) =
+        [(doc_is_json flow a d,
+          prepared flow jview a (prepared flow jview a d) :: map (prepared flow jview a) rest)].
+Proof. exact merge_matrix_output. Qed.
+Print Assumptions C16_merge_matrix_output.
+
+Definition ex_args_mode (m : Cli.mdmode) :=
+  mkmerge true (mknoise false false false) false false "" false "" false false FAuto m "".
+Definition ex_mode_srcs := [ex_src "a.yaml" [1; 2]; ex_src "b.yaml" [3; 4; 5]].
+Example C16_merge_across_example :
+  cli_merge_main ex_merge2 (fun _ => false) (fun d => d) 9 (ex_args_mode MergeAcross) true ex_mode_srcs (ex_src "-" []) =
+    mkrun (Exit 0) [ODump false [13; 24; 5]] [] /\
+  across_streams ex_merge2 (merge_streams 9 (ex_args_mode MergeAcross) true ex_mode_srcs (ex_src "-" [])) = [13; 24; 5].
+Proof. split; vm_compute; reflexivity. Qed.
+Example C16_merge_matrix_example :
+  cli_merge_main ex_merge2 (fun _ => false) (fun d => d) 9 (ex_args_mode MatrixMerge) true ex_mode_srcs (ex_src "-" []) =
+    mkrun (Exit 0) [ODump false [1345; 2345]] [] /\
+  matrix_streams ex_merge2 (merge_streams 9 (ex_args_mode MatrixMerge) true ex_mode_srcs (ex_src "-" [])) = [1345; 2345].
+Proof. split; vm_compute; reflexivity. Qed.
+Example C16_merge_modes_example_hyps :
+  ma_mode (ex_args_mode MergeAcross) <> CondenseAll /\
+  Forall (src_loads 9) ex_mode_srcs /\
+  merge_validate (ex_args_mode MergeAcross) 2 ["a.yaml"; "b.yaml"] true = (0, [], mknoise true false false) /\
+  stdin_waits_m (ex_args_mode MergeAcross) true ex_mode_srcs = false.
+Proof.
+  split; [discriminate|]. split; [|split; reflexivity].
+  repeat constructor; eexists; reflexivity.
+Qed.
+Example C16_merge_modes_example_error :
+  (* -M merge_across, the second pair raises MergeException: state 31 is the exit status, nothing delivered *)
+  let m2 := fun l r => if Nat.eqb r 4 then (Some UMerge, l) else (None, 10 * l + r) in
+  lib_merge_streams m2 MergeAcross [] (merge_streams 9 (ex_args_mode MergeAcross) true ex_mode_srcs (ex_src "-" [])) = Ok ([13; 2], 31) /\
+  cli_merge_main m2 (fun _ => false) (fun d => d) 9 (ex_args_mode MergeAcross) true ex_mode_srcs (ex_src "-" []) =
+    mkrun (Exit 31) [OHint] [].
+Proof. split; vm_compute; reflexivity. Qed.
 
 (* ------------------------------------------------------------------ *)
 (* yaml-set *)
